@@ -202,6 +202,18 @@ def _check(cat, d, CompaSOHaloCatalog):
             if raw is not None and col != 'origin' and col not in ('pos_interp', 'vel_interp') and not EIG.fullmatch(col):
                 if not (raw.shape == on.shape and np.array_equal(raw, on.astype(raw.dtype), equal_nan=(raw.dtype.kind == 'f'))):
                     raise Violation('unchanged-column-changed', 'column %s is not the stored column' % name)
+            m = EIG.fullmatch(col)
+            if m:
+                # dimensionless unit vectors: the reader must hand out exactly the direct decoding of the stored 16-bit code
+                # (the decoder itself is judged by C18), whichever of Min/Mid/Maj were requested
+                from abacusnbody.data.compaso_halo_catalog import _unpack_euler16
+
+                rnv, which, com = re.fullmatch(r'(sigma[rnv]_eigenvecs)(Min|Mid|Maj)(_(?:L2)?com)', col).groups()
+                code = _raw(cat, rnv + com + '_u16')
+                tri = _unpack_euler16(code)
+                want = tri[{'Min': 0, 'Mid': 1, 'Maj': 2}[which]].astype(np.float32)
+                if not (want.shape == on.shape and np.array_equal(want, on)):
+                    raise Violation('eigenvector-column-not-direct-decoding', 'column %s differs from _unpack_euler16(%s)[%s]' % (col, rnv + com + '_u16', which))
     # the same columns requested as an explicit list with every derived column *before* the column it is relative to
     # (columns load in reverse request order, so the base columns are unpacked first): values must not depend on that
     bases = [c for c in con.halos.colnames if re.fullmatch(r'(r100|sigmav3d)_(L2)?com', c)]
